@@ -16,6 +16,7 @@ open RdfModel
 #print axioms RdfModel.C11.rdfa_chaining
 #print axioms RdfModel.C11.rdfa_inherited_subject
 #print axioms RdfModel.C11.rdfa_typed_bnode_object
+#print axioms RdfModel.C11.rdfa_rev_property_literal
 #print axioms RdfModel.C11.rdfa_inlist_collection
 #print axioms RdfModel.C11.microdata_roundtrip_validated
 #print axioms RdfModel.C11.microdata_roundtrip_partial
